@@ -19,7 +19,9 @@ RULE = (
     "level maps/mappers, TypedTree str / objects / derived, FileSystemTree}, tree spec with clones at any relative "
     "position / explicit ids / kinds / unicode, 3-6 storage configurations: key_map in {default, off, custom injective "
     "dict}, value_map in {default, off, custom dict listing all values}, compression in {False, True, STORED, DEFLATED, "
-    "BZIP2, LZMA}, target in {str path, Path, open text file, StringIO}, user meta). Oracle: loaded tree has the "
+    "BZIP2, LZMA}, target in {str path, Path, open UTF-8 text file, open ASCII-only text file, StringIO}, user meta, "
+    "optionally an earlier save() of the same tree that was handed the same meta dict object with other maps; labels "
+    "include quotes, backslash, newline, blanks, the empty string and a lone surrogate). Oracle: loaded tree has the "
     "loading class, same shape/order, data equal by value, kinds, clone partition, value-derived data_ids, file_meta "
     "carries header + user entries; metamorphic: all configurations load to the identical observation; the source is "
     "unchanged. Non-trivial: >= 3 nodes and >= 1 clone group; distinct = distinct case."
